@@ -4,6 +4,7 @@
  *   Random seed n       long random strings (arbitrary other bytes included) */
 #define _GNU_SOURCE
 #include "drv.h"
+#include <sys/types.h>
 #include <librfn/hex.h>
 #include <librfn/util.h>
 
@@ -55,6 +56,27 @@ static void strings(int maxlen)
 		}
 	}
 }
+/* a sink that itself dumps something (a tee that keeps a hex trace of what passes through it): hex_dump_to_file must be
+ * re-entrant through the stream it writes to */
+static char *ck_buf; static size_t ck_len, ck_cap;
+static int ck_depth;
+static ssize_t ck_write(void *cookie, const char *data, size_t n)
+{
+	(void)cookie;
+	if (!ck_depth) {          /* the trace is written first, the data are consumed afterwards */
+		static const unsigned char inner[20] = { 0x33, 0x33, 0x33, 0x33, 0x33, 0x33, 0x33, 0x33, 0x33, 0x33, 0x33, 0x33, 0x33, 0x33, 0x33, 0x33, 0x36, 0x0a, 0x55, 0xaa };
+		char *o = NULL; size_t ol = 0;
+		FILE *f = open_memstream(&o, &ol);
+		ck_depth++;
+		hex_dump_to_file(f, (unsigned char *)inner, sizeof(inner));
+		ck_depth--;
+		fclose(f); free(o);
+	}
+	if (ck_len + n + 1 > ck_cap) { ck_cap = 2 * (ck_len + n + 1); ck_buf = realloc(ck_buf, ck_cap); }
+	memcpy(ck_buf + ck_len, data, n); ck_len += n; ck_buf[ck_len] = 0;
+	return (ssize_t)n;
+}
+static int use_cookie;
 static void dump_case(const unsigned char *b, int n)
 {
 	/* the array ends where its heap block ends and starts at every alignment (0..3 mod 4) in turn */
@@ -64,9 +86,20 @@ static void dump_case(const unsigned char *b, int n)
 	memcpy(exact, b, n);
 	char *out = NULL;
 	size_t outlen = 0;
-	FILE *f = open_memstream(&out, &outlen);
-	int ret = hex_dump_to_file(f, exact, n);
-	fclose(f);
+	int ret;
+	if (use_cookie) {
+		cookie_io_functions_t io = { NULL, ck_write, NULL, NULL };
+		ck_len = 0; if (ck_buf) ck_buf[0] = 0;
+		FILE *f = fopencookie(NULL, "w", io);
+		if (use_cookie == 2) setvbuf(f, NULL, _IONBF, 0);
+		ret = hex_dump_to_file(f, exact, n);
+		fclose(f);
+		out = strdup(ck_buf ? ck_buf : ""); outlen = ck_len;
+	} else {
+		FILE *f = open_memstream(&out, &outlen);
+		ret = hex_dump_to_file(f, exact, n);
+		fclose(f);
+	}
 	parse_case((unsigned char *)out, (int)outlen, "Dump");
 	printf(",\"ret\":%d,\"b\":[", ret);
 	for (int i = 0; i < n; i++) printf("%s%u", i ? "," : "", b[i]);
@@ -146,6 +179,12 @@ int main(void)
 					dump_case(b, l);
 				}
 			for (int x = 0; x < 256; x++) { b[0] = x; dump_case(b, 1); }
+			for (use_cookie = 1; use_cookie <= 2; use_cookie++)       /* through a sink that dumps too: buffered and unbuffered */
+				for (int l = 0; l <= mb; l += 1 + l / 8) {
+					for (int i = 1; i <= l; i++) b[i - 1] = (i * 29 + 7) % 256;
+					dump_case(b, l);
+				}
+			use_cookie = 0;
 		}
 		else if (drv_is(&c, "Long")) {
 			/* lines far longer than any internal buffer might be: blanks / address digits before the ':' */
@@ -155,6 +194,22 @@ int main(void)
 				memset(b, ' ', L); memcpy(b + L, "10:ab cd\n20: ef", 16); parse_case(b, L + 16, "Parse"); printf("}\n");
 				memset(b, '1', L); memcpy(b + L, ":ab", 3); parse_case(b, L + 3, "Parse"); printf("}\n");
 				memset(b, ' ', L); memcpy(b + L, "ab", 2); parse_case(b, L + 2, "Parse"); printf("}\n");
+			}
+		}
+		else if (drv_is(&c, "ManyLines")) {
+			/* a very long run of lines that carry no data (address only, or blank) before the first byte: one call has to
+			 * step over all of them; the expected result is known by construction */
+			long nl = drv_arg(&c, 0);
+			for (int kind = 0; kind < 2; kind++) {
+				const char *unit = kind ? "\n" : "00000000:\n";
+				size_t ul = strlen(unit);
+				char *t = malloc(nl * ul + 16);
+				for (long i = 0; i < nl; i++) memcpy(t + i * ul, unit, ul);
+				strcpy(t + nl * ul, "0010: de ad\n");
+				const char *p = NULL;
+				int r0 = hex_get_byte(t, &p), r1 = hex_get_byte(NULL, &p), r2 = hex_get_byte(NULL, &p), r3 = hex_get_byte(NULL, &p);
+				printf("{\"e\":\"ManyLines\",\"n\":%ld,\"kind\":%d,\"r\":[%d,%d,%d,%d]}\n", nl, kind, r0, r1, r2, r3);
+				free(t);
 			}
 		}
 		else if (drv_is(&c, "Two")) {
